@@ -306,6 +306,9 @@ fn judge(ctx: &Ctx, sub: &str, src: &str, exp: &Exp, l: &mut Local) {
 }
 
 pub fn run(ctx: &Ctx) {
+    // the watchdog's clock also covers the harness's own oracle work (reference models, DOM enumeration);
+    // the limit is generous so that machine load cannot turn a slow case into a verdict
+    ctx.hang_limit_s.store(300, std::sync::atomic::Ordering::Relaxed);
     let nu = UNITS.len() as u64;
     let nm = MAGS.len() as u64;
     let no = OPS.len() as u64;
